@@ -140,6 +140,7 @@ void inst(rgb8_view_t const& a, rgb8_planar_view_t const& p, k_xystep const& s, 
   all2(a, a); all2(a, p); all2(p, a); all2(p, p); all2(s, a); all2(a, s); all2(s, s); all2(ps, p); all2(g, g);
   copy_and_convert_pixels(a, g); copy_and_convert_pixels(p, g);
   (void)(i1 == i2); (void)(i1 != i1);
+  fill_pixels(p, bgr8_pixel_t()); fill_pixels(ps, bgr8_pixel_t()); fill_pixels(a, bgr8_pixel_t()); fill_pixels(p, rgb8_pixel_t());
 }
 '''
 
@@ -386,6 +387,35 @@ def ast_rules(rep):
         else:
             rep.violation("G5-rowloop", "G5:%s/%d" % (short_n, nsrc), R.fn_where(f), det)
     rep.floor("obligations:G5", 4)
+    # ---- G7 the planar fill fast path pairs the planes with the channels of the value by semantic index
+    rep.rule("G7 detail::fill_aux(first, last, p, planar): the value p may have any compatible layout (fill_pixels(planar rgb view, bgr pixel)); the planes are in "
+             "colour-space order, so p is read through semantic accessors only (static_for_each / semantic_at_c / get_color), never by physical index")
+    SEM = ("static_for_each", "static_transform", "static_generate", "semantic_at_c", "get_color")
+    PHYS = ("dynamic_at_c", "at_c", "operator[]")
+    for f in fns:
+        if f["name"] != "boost::gil::detail::fill_aux" or len(f["params"]) != 4 or "true" not in f["params"][3]["type"]:
+            continue
+        pv = f["params"][2]
+        m = re.search(r"mp_list<((?:std::integral_constant<int, \d+>(?:, )?)+)>>", pv["type"])
+        perm = [int(x) for x in re.findall(r"integral_constant<int, (\d+)>", m.group(1))] if m else None
+        permuted = perm is not None and perm != list(range(len(perm)))
+        uses = []
+        for x, pth in R.find(f["body"], lambda x: x.get("k") == "DeclRef" and x.get("name") == pv["name"]):
+            calls = [a for a, fld, _ in pth if a.get("k") == "Call"]
+            nm = calls[-1]["callee"]["name"].split("::")[-1] if calls else None
+            uses.append(nm)
+        rep.count("obligations:G7")
+        key = "G7:fill_aux<planar>(value layout %s)" % ("".join(str(i) for i in perm) if perm else "?")
+        phys = [u for u in uses if u in PHYS]
+        other = [u for u in uses if u not in PHYS and u not in SEM]
+        if not uses or other:
+            rep.incon("G7-semantic-pairing", key, "value accessed through %s" % (other or "nothing"))
+        elif phys and permuted:
+            rep.violation("G7-semantic-pairing", key, R.fn_where(f), {"physical_accessors_on_value": phys, "value_type": short(pv["type"]), "channel_mapping": perm,
+                          "effect": "plane k (colour-space order) receives physical channel k of the value, i.e. semantic channel %s" % perm})
+        else:
+            rep.ok("G7-semantic-pairing", key, {"accessors": uses, "permuted": permuted})
+    rep.floor("obligations:G7", 2)
 
 
 def loop_from_zero(loop):
